@@ -371,6 +371,153 @@ def cdb_order_sites(db, rep):
 
 
 
+def hash_agreement_sites(db, rep):
+    """the reader's hash of a key equals the hash the writer stored, for keys with bytes >= 0x80 as well"""
+    from rules.libtab import Conc, one
+    progr = db.program('qmail-lspawn')
+    progw = db.program('qmail-newu')
+    rd = db.fn('cdb_hash.c', 'cdb_hash')
+    wr = db.fn('cdbmake_hash.c', 'cdbmake_hashadd')
+    start = db.unit('cdbmake_hash.c').macro_int('CDBMAKE_HASHSTART')
+    if start is None:
+        for u_ in ('cdbmss.c', 'cdbmake_add.c', 'qmail-newu.c'):
+            start = start if start is not None else db.unit(u_).macro_int('CDBMAKE_HASHSTART')
+    if start is None:
+        start = 5381
+    bad = []
+    for key in ([106, 111, 115, 0xE9], [0xFC], [65, 0x80, 0xFF, 97], [97, 98, 99], []):
+        H = Conc('cdb_hash')
+        e = Engine(db, progr, H)
+        fid = e.frame_id(rd)
+        st = {'%s::%s' % (fid, rd.params[0]): fs(('&', 'K[0]')), '%s::%s' % (fid, rd.params[1]): fs(len(key))}
+        for i, b in enumerate(key):
+            st['K[%d]' % i] = fs(b)
+        e.run(rd, st)
+        rep.count_states(e.states, e.transitions)
+        if len(H.ends) != 1:
+            raise AnalysisBroken('cdb_hash: %d ends' % len(H.ends))
+        hr = one(H.ends[0][1])
+        hw = start
+        for b in key:
+            H2 = Conc('cdbmake_hashadd')
+            e2 = Engine(db, progw, H2)
+            fid2 = e2.frame_id(wr)
+            # the writer is handed the byte as it reads it from the source line: a plain char
+            e2.run(wr, {'%s::%s' % (fid2, wr.params[0]): fs(hw), '%s::%s' % (fid2, wr.params[1]): fs(b - 256 if b >= 128 else b)})
+            rep.count_states(e2.states, e2.transitions)
+            if len(H2.ends) != 1:
+                raise AnalysisBroken('cdbmake_hashadd: %d ends' % len(H2.ends))
+            hw = one(H2.ends[0][1])
+        if hr is None or hw is None or (hr & 0xffffffff) != (hw & 0xffffffff):
+            bad.append((bytes(key), hex(hr & 0xffffffff) if hr is not None else None, hex(hw & 0xffffffff) if hw is not None else None))
+    return {'reader-and-writer-hash-agree(8-bit-keys-too)': (not bad, 'cdb_hash.c/cdbmake_hash.c', '(key, reader hash, writer hash): %s; an entry whose key hashes differently on the two sides is never found: the address silently falls through to a wildcard, the catch-all or qmail-getpw' % bad[:3], [])}
+
+
+
+def _cdbhash(key):
+    h = 5381
+    for c in key:
+        h = ((h + (h << 5)) & 0xffffffff) ^ c
+    return h
+
+
+def _cdb_image(entries):
+    """a cdb file as bytes: entries = [(key bytes, data bytes)] in source order (the documented format, built here)"""
+    import struct
+    recs = b''
+    pos = 2048
+    tabs = {}
+    for k, d in entries:
+        tabs.setdefault(_cdbhash(k) & 255, []).append((_cdbhash(k), pos))
+        recs += struct.pack('<II', len(k), len(d)) + k + d
+        pos += 8 + len(k) + len(d)
+    header = [(0, 0)] * 256
+    tables = b''
+    for t in range(256):
+        ents = tabs.get(t, [])
+        ln = 2 * len(ents)
+        header[t] = (pos, ln)
+        slots = [(0, 0)] * ln
+        for h, p_ in ents:
+            w = (h >> 8) % ln
+            while slots[w][1]:
+                w = (w + 1) % ln
+            slots[w] = (h, p_)
+        for h, p_ in slots:
+            tables += struct.pack('<II', h, p_)
+        pos += 8 * ln
+    return b''.join(struct.pack('<II', a, b) for a, b in header) + recs + tables
+
+
+def cdb_seek_sites(db, rep):
+    """cdb_seek over a small database that contains two different keys with the same hash and length (and a duplicate
+    key): every key of the source table is found, with the data of its first occurrence; absent keys are not"""
+    import itertools
+    from rules.libtab import Conc, one
+    prog = db.program('qmail-lspawn')
+    fn = db.fn('cdb_seek.c', 'cdb_seek')
+    # two different keys of equal length with the same 32-bit hash (searched, not assumed)
+    pair = None
+    for a_, b_ in ((b'teamab6', b'teamadp'), (b'mlaa2-', b'mlacp-')):
+        if a_ != b_ and len(a_) == len(b_) and _cdbhash(a_) == _cdbhash(b_):
+            pair = (a_, b_)
+            break
+    if pair is None:
+        seen = {}
+        alpha = list(range(48, 58)) + list(range(97, 123))
+        for t in itertools.product(alpha, repeat=4):
+            hh = _cdbhash(bytes(t))
+            if hh in seen:
+                pair = (seen[hh], bytes(t))
+                break
+            seen[hh] = bytes(t)
+    if pair is None:
+        raise AnalysisBroken('no colliding key pair found')
+    k1, k2 = pair
+    entries = [(k1, b'first'), (k2, b'second-one'), (b'solo', b'x'), (k1, b'DUPLICATE')]
+    img = _cdb_image(entries)
+
+    class SH(Conc):
+        def prim_lseek(self, E, x, args):
+            p_ = one(args[1])
+            return [Outcome(ret=fs(p_ if isinstance(p_, int) else 0), sets={'$pos': fs(p_)})]
+
+        def prim_read(self, E, x, args):
+            from qv.esp import ptr_add
+            bp, n = one(args[1]), one(args[2])
+            pos = one(E.get('$pos'))
+            if not (isinstance(pos, int) and isinstance(n, int) and isinstance(bp, tuple)):
+                return [Outcome(ret=fs(-1))]
+            chunk = img[pos:pos + n]
+            sets = {'$pos': fs(pos + len(chunk))}
+            for i, b in enumerate(chunk):
+                q = ptr_add(bp, i)
+                if q is None:
+                    return [Outcome(ret=fs(-1))]
+                sets[q[1]] = fs(b)
+            return [Outcome(ret=fs(len(chunk)), sets=sets)]
+    bad = []
+    for key, want, wantlen in ((k1, 1, 5), (k2, 1, 10), (b'solo', 1, 1), (b'none', 0, None), (b'sol', 0, None)):
+        H = SH('cdb_seek')
+        e = Engine(db, prog, H, max_states=400000)
+        fid = e.frame_id(fn)
+        st = {'%s::%s' % (fid, fn.params[0]): fs(5), '%s::%s' % (fid, fn.params[1]): fs(('&', 'KEY[0]')), '%s::%s' % (fid, fn.params[2]): fs(len(key)),
+              '%s::%s' % (fid, fn.params[3]): fs(('&', 'DLEN'))}
+        for i, b in enumerate(key):
+            st['KEY[%d]' % i] = fs(b)
+        e.run(fn, st)
+        rep.count_states(e.states, e.transitions)
+        if len(H.ends) != 1:
+            raise AnalysisBroken('cdb_seek: %d ends for key %r' % (len(H.ends), key))
+        end, val, tr = H.ends[0]
+        got, dl = one(val), one(end.get('DLEN'))
+        if got != want or (want == 1 and dl != wantlen):
+            bad.append((key, got, dl, want, wantlen))
+    return {'cdb_seek:every-source-key-is-found(first-duplicate,colliding-hashes)': (not bad, 'cdb_seek.c:cdb_seek',
+            'database with the keys %s (the first two have the same hash and length; the first is listed twice): (key, result, data length, documented result, documented length): %s' % ([k for k, _ in entries], bad[:3]), [])}
+
+
+
 def run(ctx):
     db, rep = ctx.db, ctx.report
     pl = db.program('qmail-lspawn')
@@ -650,6 +797,10 @@ def run(ctx):
     # ---------------------------------------------------------------- 6. first duplicate wins (orientation agreement)
     r6 = rep.rule('C11.6-duplicate-order', 'R-SIBLING', 'records reach each hash bucket oldest first: chunk-list order (cdbmake_add), within-chunk traversal and fill direction (cdbmake_split) agree; writer and reader probe forward, so the first source line is the one found')
     for inst, v in sorted(cdb_order_sites(db, rep).items()):
+        r6.check(v[0], inst, v[1], v[2], v[3])
+    for inst, v in sorted(hash_agreement_sites(db, rep).items()):
+        r6.check(v[0], inst, v[1], v[2], v[3])
+    for inst, v in sorted(cdb_seek_sites(db, rep).items()):
         r6.check(v[0], inst, v[1], v[2], v[3])
     cs = db.fn('cdb_seek.c', 'cdb_seek')
     fwd_r = any(y.k == 'un' and y.op in ('pre++', 'post++') and (y.args[0].var or '')[:2] == 'L:' for y in cs.all_x()) or \
